@@ -632,7 +632,8 @@ class GatherCanon(ast.NodeTransformer):
             n.slice = m
             return n
         # x[np.arange(k)] / x[np.arange(0, k)]  ->  x[:k]   (the same elements; only the first axis form)
-        if isinstance(sl, ast.Call) and norm(sl.func) in ('np.arange', 'numpy.arange') and not sl.keywords and 1 <= len(sl.args) <= 2:
+        if isinstance(sl, ast.Call) and norm(sl.func) in ('np.arange', 'numpy.arange') and 1 <= len(sl.args) <= 2 \
+                and all(k.arg == 'dtype' and 'int' in norm(k.value) for k in sl.keywords):
             lo = sl.args[0] if len(sl.args) == 2 else None
             if lo is not None and const_value(lo) == 0:
                 lo = None
@@ -778,3 +779,60 @@ def all_but_one(e: ast.AST, ex=None):
         if N is not None and isinstance(r, (ast.List, ast.Tuple, ast.Set)) and len(r.elts) == 1:
             return ('ok', N, norm(r.elts[0]).replace(' ', ''))
     return None
+
+
+UFUNC_OPS = {'np.multiply': ast.Mult, 'np.divide': ast.Div, 'np.true_divide': ast.Div, 'np.add': ast.Add, 'np.subtract': ast.Sub,
+             'np.power': ast.Pow, 'np.matmul': ast.MatMult}
+
+
+def sequential_defs(stmts: List[ast.stmt], defs: Optional[dict] = None) -> dict:
+    """{name: expression} after executing the straight-line statements in order, each expression written over the values
+    that were live BEFORE the block (names bound in the block are expanded away).  Understands plain assignments, augmented
+    assignments (`a /= b` is `a = a / b`), the binary ufuncs with `out=` (`np.divide(a, b, out=a)` is `a = a / b`) and
+    `a = np.multiply(x, y)` spelled as a call.  Statements of other kinds are skipped (their targets are dropped)."""
+    import copy
+    defs = dict(defs or {})
+
+    def call_to_binop(c: ast.AST):
+        if isinstance(c, ast.Call) and norm(c.func) in UFUNC_OPS and len(c.args) >= 2 and all(k.arg in ('out',) for k in c.keywords):
+            return ast.BinOp(left=c.args[0], op=UFUNC_OPS[norm(c.func)](), right=c.args[1])
+        return None
+
+    class U(ast.NodeTransformer):
+        def visit_Call(self, c):
+            self.generic_visit(c)
+            b = call_to_binop(c)
+            return ast.copy_location(b, c) if b is not None and not c.keywords else c
+    for s in stmts:
+        if isinstance(s, ast.Assign) and len(s.targets) == 1 and isinstance(s.targets[0], ast.Name):
+            defs[s.targets[0].id] = expand(U().visit(copy.deepcopy(s.value)), defs)
+        elif isinstance(s, ast.AugAssign) and isinstance(s.target, ast.Name):
+            cur = defs.get(s.target.id, ast.Name(id=s.target.id, ctx=ast.Load()))
+            defs[s.target.id] = ast.fix_missing_locations(ast.BinOp(left=copy.deepcopy(cur), op=s.op, right=expand(U().visit(copy.deepcopy(s.value)), defs)))
+        elif isinstance(s, ast.Expr) and isinstance(s.value, ast.Call):
+            out = next((k.value for k in s.value.keywords if k.arg == 'out'), None)
+            b = call_to_binop(s.value)
+            if isinstance(out, ast.Name) and b is not None:
+                defs[out.id] = expand(ast.fix_missing_locations(copy.deepcopy(b)), defs)
+        elif isinstance(s, (ast.Assign, ast.AnnAssign, ast.AugAssign)):
+            for t in (s.targets if isinstance(s, ast.Assign) else [s.target]):
+                if isinstance(t, ast.Name):
+                    defs.pop(t.id, None)
+    return defs
+
+
+def negate(t: ast.AST) -> ast.AST:
+    """The logical negation of a test, pushed inwards: not not x = x, De Morgan over and/or, order comparisons flipped
+    (`a > b` -> `a <= b`: exact for the real, non-NaN quantities compared here), ==/!=, is/is not, in/not in swapped."""
+    import copy
+    if isinstance(t, ast.UnaryOp) and isinstance(t.op, ast.Not):
+        return copy.deepcopy(t.operand)
+    if isinstance(t, ast.BoolOp):
+        op = ast.Or() if isinstance(t.op, ast.And) else ast.And()
+        return ast.fix_missing_locations(ast.copy_location(ast.BoolOp(op=op, values=[negate(v) for v in t.values]), t))
+    if isinstance(t, ast.Compare) and len(t.ops) == 1:
+        flip = {ast.Lt: ast.GtE, ast.LtE: ast.Gt, ast.Gt: ast.LtE, ast.GtE: ast.Lt, ast.Eq: ast.NotEq, ast.NotEq: ast.Eq,
+                ast.Is: ast.IsNot, ast.IsNot: ast.Is, ast.In: ast.NotIn, ast.NotIn: ast.In}
+        return ast.fix_missing_locations(ast.copy_location(ast.Compare(left=copy.deepcopy(t.left), ops=[flip[type(t.ops[0])]()],
+                                                                        comparators=copy.deepcopy(t.comparators)), t))
+    return ast.fix_missing_locations(ast.copy_location(ast.UnaryOp(op=ast.Not(), operand=copy.deepcopy(t)), t))
